@@ -8,6 +8,7 @@ CONSTANTS
   GarbageLens = {0, 1, 15, 16, 4094, 4095}
   DecoyCounts = {0, 1, 2}
   Hellos = {"v2", "v1", "v1wrong"}
+  Encodings = {"canon", "uplusp"}
   PrefixMatches = {0, 1, 4, 15}
   Sizes = {1}
   IgnoreOpts = {FALSE}
